@@ -326,6 +326,18 @@ func runC11(c *core.Ctx) {
 		c.Case("empty", core.GApp("CSeq", "false", "[]", "[]", "[]", "[]"), "no history could be recorded (see the native violations)")
 	}
 
+	// 2b. a refused upstream reply in the middle of concurrent operation: everything still completes
+	res = runChild(exe, 150*time.Second, nil, "-kind", "faulty", "-n", fmt.Sprint(c.N(8, 60)), "-seed", fmt.Sprint(c.Seed+3))
+	for _, m := range res.lines {
+		switch m["kind"] {
+		case "faulty-problem":
+			c.Native(fmt.Sprint(m["what"]), m)
+		case "faulty-ok":
+			c.NativeCheck(1)
+		}
+	}
+	abnormal(c, "histories with a refused upstream reply", res)
+
 	// 3. stress histories: reply matching, completion, no fatal error
 	nStress := c.N(6, 90)
 	millis := 1500
